@@ -3,7 +3,7 @@ PROP = {'engine': 'sup',
  'test': 'TestC19',
  'level': 'exploration',
  'quick': {'checks': 300, 'shards': 8, 'timeout': 600},
- 'thorough': {'checks': 2400, 'shards': 12, 'timeout': 2400},
+ 'thorough': {'checks': 5000, 'shards': 12, 'timeout': 3400},
  'rule': "rapid draws 1-8 processes, each a `/bin/sh -c <script>` built from a grammar: TERM disposition (default | trap 'exit n' | ignored), 0-3 "
          'background `sleep 100` children whose pids go into a marker file, an end (exit n | kill -s SIG $$ with SIG in KILL SEGV TERM ABRT USR1 BUS '
          'FPE | endless loop / wait), an optional 10-80 ms sleep before the end; and an order of operations on a fresh LocalSupervisor: Exec, '
